@@ -6,7 +6,7 @@
    (Spec/EmptySpec.v), [wfn] / [wtb] / [gov] as in Properties/C08.v. *)
 From Coq Require Import List Bool String Ascii ZArith Arith.
 From Verif Require Import Util Ints Node GoSrc Value Outcome InsReset InsCopy EmptySpec LCSound ResetCopySound CopyAlloc
-  Shapes EnumVal GenUnits GenC10 GenC08 GenC06.
+  Deq DeqSpec DeqKeys DeqPaths DeqMain CopyEqual Shapes EnumVal GenUnits GenC10 GenC08 GenC06.
 Import ListNotations.
 
 (* Copy returns nil and a value structurally identical to the source up to nil-versus-empty
@@ -40,6 +40,38 @@ Proof.
 Qed.
 Print Assumptions C06_copyto_reset_destination.
 
+(* Copy is equal to its source: the model of the generated DeepEqual (Model/Deq.v, C05) answers true for
+   source and copy - for EVERY root node both developments accept ([wfroot] is C05's, [wfn] ours), every Go
+   value with finite floats ([finv]; an infinite float is not even equal to itself, C05_refuted_refl_infinity)
+   and valid map keys ([kok], C05's reading; [gov], ours), on the domain without non-empty pointer-keyed
+   maps ([npk]).  Composition of C06_structure with C05_copy_equal through [seq_of_canon]
+   (Proofs/CopyEqual.v): the same normal form implies C05's structural identity. *)
+Theorem C06_equal : forall n v, wfroot n = true -> wfn n = true -> wtb n v = true -> gov n v = true ->
+  finv v = true -> kok v = true -> npk n v = true ->
+  deep_equal n false (APtr (Some v)) (APtr (Some (cpy n (zero_val n) v))) = inl true.
+Proof. exact copy_deep_equal. Qed.
+Print Assumptions C06_equal.
+
+(* ... and the same for CopyTo into any empty destination. *)
+Theorem C06_equal_copyto : forall n d v, wfroot n = true -> wfn n = true -> wtb n d = true -> wtb n v = true -> gov n v = true ->
+  finv v = true -> kok v = true -> npk n v = true -> is_blank d = true ->
+  deep_equal n false (APtr (Some v)) (APtr (Some (cpy n d v))) = inl true.
+Proof. exact copyto_deep_equal. Qed.
+Print Assumptions C06_equal_copyto.
+
+(* Outside that domain the statement is false: pointer keys are compared by identity, a copy's keys are its
+   own allocations (C05 records this as a decision, C05_refuted_copy_equal_pointer_keys). *)
+Theorem C06_refuted_equal_pointer_keys : exists n v,
+  wfroot n = true /\ wfn n = true /\ wtb n v = true /\ gov n v = true /\ finv v = true /\ kok v = true /\
+  seq_nilempty (cpy n (zero_val n) v) v /\
+  deep_equal n false (APtr (Some v)) (APtr (Some (cpy n (zero_val n) v))) = inl false.
+Proof.
+  exists (root_node ("T"%string, TStruct [("F"%string, TMap (TPtr (TScalar (SInt KInt32))) (TScalar SString))])),
+         (VStruct [VMap false [(VPtr (Some (VInt 1)), VStr "a")]]).
+  vm_compute. repeat split; reflexivity.
+Qed.
+Print Assumptions C06_refuted_equal_pointer_keys.
+
 (* Source and copy share no mutable memory, as far as a model of value TREES can say it: of the
    allocations the statements of cpy put into the result ([cpy_allocs], Model/InsCopy.v) none is
    a stored reference of the source - each is fresh, the destination's own, or a slice handed out
@@ -67,11 +99,24 @@ Example C06_units_inhabit :
           (supported_units 0) = true.
 Proof. vm_compute. reflexivity. Qed.
 
+(* Non-vacuity of C06_equal on the units of the stream: every root is accepted by both developments, every
+   value variant has finite floats and valid keys, [npk] is exactly the complement of the stream's `ptrkeys`
+   tag, and the prediction [deq3] of the stream is the verdict of C05's model on (source, copy). *)
+Example C06_equal_inhabited :
+  forallb (fun u => let n := root_node u in
+    wfroot n && forallb (fun v => finv v && kok v && Bool.eqb (npk n v) (negb (has_ptrkeys n v)) &&
+                                  match deep_equal n false (APtr (Some v)) (APtr (Some (cpy n (zero_val n) v))) with
+                                  | inl b => String.eqb (deq3 n v) (if b then "1" else "0")
+                                  | inr _ => false
+                                  end) (variants n))
+          (supported_units 0) = true.
+Proof. vm_compute. reflexivity. Qed.
+
 Local Open Scope string_scope.
 (* Known (findings/C06.txt): the generated DeepEqual does not report a faithful copy equal when the
-   value holds a non-empty map with pointer keys (keys are looked up by identity), and panics on a
-   nil pointer-to-scalar struct field.  [deq3] is the verdict the stream predicts - and observes -
-   for DeepEqual(source, copy); both defects are in the DeepEqual emitter (C05). *)
+   value holds a non-empty map with pointer keys (keys are looked up by identity; C05 records this as a
+   decision: C05_refuted_copy_equal_pointer_keys).  [deq3] is the verdict the stream predicts - and
+   observes - for DeepEqual(source, copy). *)
 Example C06_refuted_deepequal_pointer_keys :
   let n := root_node ("T", TStruct [("F", TMap (TPtr (TScalar (SInt KInt32))) (TScalar SString))]) in
   let v := VStruct [VMap false [(VPtr (Some (VInt 1)), VStr "a")]] in
@@ -79,11 +124,12 @@ Example C06_refuted_deepequal_pointer_keys :
   canon false (cpy n (zero_val n) v) = canon false v /\ deq3 n v = "0".
 Proof. vm_compute. repeat split; reflexivity. Qed.
 
-Example C06_refuted_deepequal_nil_pointer_scalar :
+(* a nil pointer-to-scalar field is copied as nil, and DeepEqual (since fix 96581be of its emitter) sees it equal *)
+Example C06_nil_pointer_scalar :
   let n := root_node ("T", TStruct [("F", TPtr (TScalar SBool))]) in
   let v := VStruct [VPtr None] in
   wfn n = true /\ wtb n v = true /\ gov n v = true /\
-  cpy n (zero_val n) v = v /\ deq3 n v = "P".
+  cpy n (zero_val n) v = v /\ deq3 n v = "1".
 Proof. vm_compute. repeat split; reflexivity. Qed.
 
 (* pointer to scalar: the copy gets its own target (the pinned generator copied the pointer);
